@@ -149,6 +149,19 @@ impl Prop for C17 {
     fn id(&self) -> &'static str {
         "C17"
     }
+    fn enumerations(&self, tier: Tier) -> Vec<(String, String, Box<dyn Iterator<Item = Case17> + Send>)> {
+        // C01's small scope under both dialects: it holds the XPath-only constructs (anchors, reluctant quantifiers,
+        // back-references) as well as the common subset
+        let size = tier.pick(4, 5);
+        let nodes = crate::enumerate::up_to(&super::c01::enum_cfg(), size);
+        let inputs = crate::enumerate::inputs(&['a', 'b', '\n'], 3);
+        let scope = format!("all {} ASTs of size <= {} over the atoms and quantifiers of C01's first scope, rendered XSD-clean, x flags {{'', s, i}} x all {} inputs over {{a,b,LF}} of length <= 3, compiled under both dialects", nodes.len(), size, inputs.len());
+        let it = nodes.into_iter().flat_map(move |node| {
+            let inputs = inputs.clone();
+            ["", "s", "i"].into_iter().map(move |f| Case17 { ast: AstCase { node: node.clone(), flags: f.to_string(), inputs: Inputs::Lit(inputs.clone()) }, clean: true, q: false })
+        });
+        vec![("exhaustive-small".into(), scope, Box::new(it))]
+    }
     fn parts(&self, tier: Tier) -> Vec<Part<Case17>> {
         // XSD-clean: no reluctant quantifier, no back-reference, no explicit non-capturing group, capturing wrappers
         let mut clean = GenCfg::basic(&['a', 'b', 'c', '1']);
